@@ -1521,10 +1521,16 @@ int ov_pcm_seek_page(OggVorbis_File *vf,ogg_int64_t pos){
       if(end-begin<CHUNKSIZE){
         bisect=begin;
       }else{
-        /* take a (pretty decent) guess. */
-        bisect=begin +
-          (ogg_int64_t)((double)(target-begintime)*(end-begin)/(endtime-begintime))
-          - CHUNKSIZE;
+        /* take a (pretty decent) guess.  With inconsistent granule
+           positions (damaged stream) the time span can be empty or the
+           target outside it; keep the guess inside the byte range, or
+           the search would crawl back from wherever it lands */
+        double guess=0.;
+        if(endtime>begintime)
+          guess=(double)(target-begintime)*(end-begin)/(endtime-begintime);
+        if(!(guess>=0.))guess=0.;
+        if(guess>(double)(end-begin))guess=(double)(end-begin);
+        bisect=begin + (ogg_int64_t)guess - CHUNKSIZE;
         if(bisect<begin+CHUNKSIZE)
           bisect=begin;
       }
